@@ -37,6 +37,7 @@ const (
 	KPrim
 	KVmStack
 	KDictE
+	KDict
 	KEncErr
 	KOpaque
 	KUnsupported
@@ -201,10 +202,14 @@ func (u *Universe) describe(t reflect.Type) *Desc {
 		case "tlb.Ref":
 			f, _ := t.FieldByName("Value")
 			return &Desc{Kind: KRef, Elem: u.Describe(f.Type)}
-		case "tlb.HashmapE":
-			m, _ := t.FieldByName("m")
-			ks, _ := m.Type.FieldByName("keys")
-			vs, _ := m.Type.FieldByName("values")
+		case "tlb.HashmapE", "tlb.Hashmap":
+			mt := t
+			if base == "tlb.HashmapE" {
+				m, _ := t.FieldByName("m")
+				mt = m.Type
+			}
+			ks, _ := mt.FieldByName("keys")
+			vs, _ := mt.FieldByName("values")
 			kd, vd := u.Describe(ks.Type.Elem()), u.Describe(vs.Type.Elem())
 			if !dictKeyOK(kd) {
 				return &Desc{Kind: KOpaque, Name: name}
@@ -219,6 +224,9 @@ func (u *Universe) describe(t reflect.Type) *Desc {
 			})
 			if posDep {
 				return &Desc{Kind: KOpaque, Name: name}
+			}
+			if base == "tlb.Hashmap" {
+				return &Desc{Kind: KDict, Name: name, Elem: kd, Elem2: vd}
 			}
 			return &Desc{Kind: KDictE, Name: name, Elem: kd, Elem2: vd}
 		case "tlb.VmStack":
@@ -515,6 +523,8 @@ func (d *Desc) TextIdx(idx map[string]int) string {
 		return "(:vs|" + d.Elem.TextIdx(idx) + ")"
 	case KDictE:
 		return "(:de|" + d.Elem.TextIdx(idx) + "|" + d.Elem2.TextIdx(idx) + ")"
+	case KDict:
+		return "(:di|" + d.Elem.TextIdx(idx) + "|" + d.Elem2.TextIdx(idx) + ")"
 	case KEncErr:
 		return "(:ee|:" + symSafe(d.Name) + ")"
 	default:
@@ -600,6 +610,8 @@ func (d *Desc) Lean(idx map[string]int) string {
 		return "(.vmStack " + d.Elem.Lean(idx) + ")"
 	case KDictE:
 		return "(.dictE " + d.Elem.Lean(idx) + " " + d.Elem2.Lean(idx) + ")"
+	case KDict:
+		return "(.dict " + d.Elem.Lean(idx) + " " + d.Elem2.Lean(idx) + ")"
 	case KEncErr:
 		return fmt.Sprintf("(.encErr %q)", symSafe(d.Name))
 	default:
